@@ -621,6 +621,9 @@ def _run_hist(case):
                 inst = mc()
             else:
                 inst = x.get_metaclass(mc.storage[r_pick(len(mc.storage), n)]).new()
+            if inst is None or not any(inst is o for o in mc.storage):
+                fail('new-returns-other', 'new(%r) (route %s) returned %r, not the instance it created' % (op[1], how, inst), n)
+                break
             n_ids = sum(1 for a, t in classes[op[1].upper()] if t.upper() == 'UNIQUE_ID')
             if gens[j].count != drawn_before + n_ids:
                 fail('generator-not-advanced', 'new(%r) left %d unique ids to their default, the metamodel\'s generator '
@@ -698,6 +701,10 @@ def _run_dry(case):
             stats['dry_refused_' + type(e).__name__] = stats.get('dry_refused_' + type(e).__name__, 0) + 1
             continue
         returned += 1
+        if inst is None or not any(inst is o for o in mc.storage):
+            fails.append({'sig': 'new-returns-other', 'what': 'creation number %d (route %s) returned %r, not the instance it created'
+                          % (n + 1, op[1], inst)})
+            break
         for a, t in attrs:
             if t.upper() != 'UNIQUE_ID':
                 continue
@@ -749,6 +756,10 @@ def _run_layout(case):
         else:
             args, kws = op[1], dict((k, v) for k, v in op[2])
             inst = m.new('L', *args, **kws) if op[3] == 'm' else (mc.new(*args, **kws) if op[3] == 'mc' else mc(*args, **kws))
+            if inst is None or not any(inst is o for o in mc.storage):
+                fails.append({'sig': 'new-returns-other', 'what': 'new(%r, %r) (route %s) returned %r, not the instance it created'
+                              % (args, op[2], op[3], inst)})
+                break
             if [tuple(a) for a in mc.attributes] != cur:
                 fails.append({'sig': 'attribute-list', 'what': 'the class holds the attributes %r, the edits give %r; history %r'
                               % (list(mc.attributes), cur, case['ops'][:n + 1])})
@@ -896,6 +907,10 @@ def _run_twin(case):
         elif nm == 'new':
             mc = mcs[w][op[2].upper()]
             inst = ms[w].new(op[2]) if op[3] == 'm' else (mc.new() if op[3] == 'mc' else mc())
+            if inst is None or not any(inst is o for o in mc.storage):
+                fail('new-returns-other', 'new(%r) (route %s) in metamodel %d returned %r, not the instance it created'
+                     % (op[2], op[3], w, inst), n)
+                break
             if x.get_metaclass(inst) is not mc:
                 fail('instance-in-other-metamodel', 'new(%r) in metamodel %d created an instance of another metaclass' % (op[2], w), n)
             expect_draws = n_ids
@@ -1068,13 +1083,20 @@ def run_impl(case):
             mc = m.metaclasses.get(K)
             before = len(mc.storage) if mc is not None else 0
             exc = None
+            returned = None
             try:
-                m.new(op[1], *op[2], **dict((k, v) for k, v in op[3]))
+                returned = m.new(op[1], *op[2], **dict((k, v) for k, v in op[3]))
                 res = Sym('ok')
             except (x.MetaException, AttributeError) as e:
                 exc = e
                 res = _exc_name(e)
             inst = mc.storage[-1] if mc is not None and len(mc.storage) > before else None
+            # the instance the caller GETS is the one that was created (the attribute values below are read from the pool's last
+            # instance; what new() returns must be that very object, of the class that was named)
+            if exc is None and K in classes:
+                if returned is None or returned is not inst or x.get_metaclass(returned).kind != classes[K][0] or \
+                        not any(returned is o for o in m.select_many(classes[K][0])):
+                    fail('new-returns-other', 'new(%r) returned %r, not the instance of %r it created' % (op[1], returned, classes[K][0]), n)
             if inst is None:
                 obs.append([res])
                 if K in classes:
